@@ -5,8 +5,8 @@
 set -u
 ID="$1"; shift
 V=/verif
-HP="${HPREFIX:-h}"          # h = first corpus (cosmetic / local refactors), h2 = structural refactors (harmless/s<Cxx>_k), h3 = additive / tuning edits (harmless/t<Cxx>_k)
-TAG=""; [ "$HP" = "h2" ] && TAG="s"; [ "$HP" = "h3" ] && TAG="t"
+HP="${HPREFIX:-h}"          # h = first corpus (cosmetic / local refactors), h2 = structural refactors (harmless/s<Cxx>_k), h3 = additive / tuning edits (harmless/t<Cxx>_k), h4 = library-boundary equivalents / harmless changes at a distance (harmless/u<Cxx>_k)
+TAG=""; [ "$HP" = "h2" ] && TAG="s"; [ "$HP" = "h3" ] && TAG="t"; [ "$HP" = "h4" ] && TAG="u"
 PROPS="$*"; [ -z "$PROPS" ] && PROPS=$(seq -f "C%02g" 1 20)
 for k in 1 2 3 4; do
   D=$V/harmless/${TAG}${ID}_$k; mkdir -p "$D"
